@@ -203,6 +203,22 @@ theorem trace_checker_sound (f : Str) (old : Option Bytes) (new : Bytes) (s : FS
   accepts_none f old new s ops h
 
 open PV.FS in
+-- non-vacuity of the hypotheses: a quiescent file system holding the settings file, temp name free
+example : Quiet (ofFiles [(b!"settings.json", b!"old")]) ∧
+    aget (ofFiles [(b!"settings.json", b!"old")]).dir b!"settings.json.tmp1" = none := by
+  refine ⟨⟨rfl, ?_, ?_⟩, by decide⟩
+  · intro i ino h
+    simp only [ofFiles, ofFilesAux, aget] at h
+    split at h
+    · cases h; exact ⟨rfl, rfl⟩
+    · cases h
+  · intro n i h
+    simp only [ofFiles, ofFilesAux, aget] at h
+    split at h
+    · cases h; decide
+    · cases h
+
+open PV.FS in
 -- non-vacuity and the mutants of Appendix B on concrete bytes: the protocol is accepted; without
 -- fsync, or renaming before the data is written, or writing in place, it is not
 example :
@@ -252,6 +268,16 @@ theorem unlocked_rmw_lost_update :
     serial witnessEdit [0, 1] [] = [(b!"a", [.b true]), (b!"b", [.b false])] ∧
     serial witnessEdit [1, 0] [] = [(b!"b", [.b false]), (b!"a", [.b true])] := by
   decide
+
+open PV.RMW in
+-- non-vacuity of `locked_rmw_serialisable`: complete locked runs exist, in either order; a thread
+-- that finds the lock taken is not enabled
+example :
+    ((run true 2 witnessEdit (init []) [0, 0, 0, 0, 1, 1, 1, 1]).map (fun s => (s.file, s.log))) =
+      some ([(b!"a", [.b true]), (b!"b", [.b false])], [0, 1]) ∧
+    ((run true 2 witnessEdit (init []) [1, 1, 1, 1, 0, 0, 0, 0]).map (fun s => (s.file, s.log))) =
+      some ([(b!"b", [.b false]), (b!"a", [.b true])], [1, 0]) ∧
+    ((run true 2 witnessEdit (init []) [0, 1]).isNone = true) := by decide
 
 open PV.FS in
 /-- **Unlocked in-place writes destroy the file** (witness, the shape the probe of DESIGN §C19
